@@ -25,10 +25,11 @@ pub mod bv {
         pub fn len(&self) -> (r: u64) ensures r == self.bits().len() { unimplemented!() }
         #[verifier::external_body]
         pub fn block_len(&self) -> (r: usize) ensures r == (self.bits().len() + 7) / 8 { unimplemented!() }
+        pub uninterp spec fn get_block_spec(&self, b: int) -> u8;
         #[verifier::external_body]
         pub fn get_block(&self, b: usize) -> (r: u8)
             requires b < (self.bits().len() + 7) / 8
-            ensures forall|i: int| 0 <= i < 8 ==> (#[trigger] super::bit8(r, i) == 1) == self.bit_or_pad(8 * b + i)
+            ensures r == self.get_block_spec(b as int), forall|i: int| 0 <= i < 8 ==> (#[trigger] super::bit8(r, i) == 1) == self.bit_or_pad(8 * b + i)
         { unimplemented!() }
         #[verifier::external_body]
         pub fn get_bit(&self, i: u64) -> (r: bool)
@@ -42,6 +43,13 @@ use bv::BitVec;
 /// number of one bits among positions [lo, hi) (padding counts as zero)
 pub open spec fn ones(v: &BitVec<u8>, lo: int, hi: int) -> nat decreases hi - lo {
     if hi <= lo { 0 } else { ones(v, lo, hi - 1) + if v.bit_or_pad(hi - 1) { 1nat } else { 0nat } }
+}
+proof fn ones_bound(v: &BitVec<u8>, lo: int, hi: int)
+    requires lo <= hi
+    ensures ones(v, lo, hi) <= hi - lo
+    decreases hi - lo
+{
+    if hi > lo { ones_bound(v, lo, hi - 1); }
 }
 proof fn lemma_ones_split(v: &BitVec<u8>, lo: int, mid: int, hi: int)
     requires lo <= mid <= hi
@@ -127,8 +135,8 @@ impl RankSelect {
             let s = i / self.s as u64; // the superblock
             let b = i / 8; // the block
             let j = i % 8; // the bit in the block
+            let ghost ss = self.s as int; let ghost ii = i as int; let ghost q = ii / ss;
             proof {
-                let ss = self.s as int; let ii = i as int;
                 lemma_fundamental_div_mod(ii, ss); lemma_mod_bound(ii, ss); lemma_div_pos_is_pos(ii, ss);
                 lemma_mul_is_commutative(ss, ii / ss);
                 // s < number of superblocks
@@ -137,13 +145,48 @@ impl RankSelect {
                         assert((ii / ss) * ss >= self.superblocks_1.len() * ss) by (nonlinear_arith) requires ii / ss >= self.superblocks_1.len(), ss >= 1;
                     }
                 }
+                // superblock start is a multiple of 8 (s = 32k)
+                assert(q * ss == 8 * (q * (self.k as int) * 4)) by (nonlinear_arith) requires ss == self.k * 32;
+                assert(q * ss / 8 == q * (self.k as int) * 4);
+                assert(q * ss <= ii);
+                let jj = j as u16;
+                assert(2u16 << jj >= 1 && 2u16 << jj <= 256) by (bit_vector) requires jj < 8;
             }
             let mut rank = *self.superblocks_1[s as usize];
             let mask = ((2u16 << j) - 1) as u8;
+            proof {
+                let bb = b as int; let byte = self.bits.get_block_spec(bb);
+                ones_bound(&self.bits, 0, q * ss);
+                lemma_mask_popcount(byte, j as u8);
+            }
+            let ghost r0 = rank;
             rank += (self.bits.get_block(b as usize) & mask).count_ones() as u64;
-            for block in (s * self.s as u64 / 8)..b {
+            let ghost first = (s * self.s as u64 / 8) as int;
+            proof {
+                let bb = b as int; let byte = self.bits.get_block_spec(bb);
+                lemma_block_ones(&self.bits, bb, byte, j as int + 1);
+                assert(rank == ones(&self.bits, 0, q * ss) + ones(&self.bits, 8 * bb, ii + 1));
+                assert(first == q * (self.k as int) * 4);
+                assert(8 * first == q * ss);
+            }
+            for block in (s * self.s as u64 / 8)..b
+                invariant self.wf(), first <= b, b == ii / 8, 8 * first == q * ss, q * ss <= ii < self.n, ss == self.s,
+                    first <= block <= b,
+                    rank == ones(&self.bits, 0, 8 * (block as int)) + ones(&self.bits, 8 * (b as int), ii + 1),
+                    rank <= ii + 1,
+            {
+                let ghost bb = b as int;
                 let b = self.bits.get_block(block as usize);
+                proof {
+                    lemma_block_ones(&self.bits, block as int, b, 8);
+                    lemma_ones_split(&self.bits, 0, 8 * (block as int), 8 * (block as int) + 8);
+                    ones_bound(&self.bits, 0, 8 * (block as int) + 8);
+                    ones_bound(&self.bits, 8 * bb, ii + 1);
+                }
                 rank += b.count_ones() as u64;
+            }
+            proof {
+                lemma_ones_split(&self.bits, 0, 8 * (b as int), ii + 1);
             }
 
             Some(rank)
